@@ -430,8 +430,8 @@ def flaky(v):
         or v.startswith("run:missing") or v.startswith("unparsed") or v == "missing"
 
 
-IMPL_ENV = {"SV_TIMEOUT_MS": "5000"}
-IMPL_ENV_RETRY = {"SV_TIMEOUT_MS": "15000"}
+IMPL_ENV = {"SV_TIMEOUT_MS": "4000"}
+IMPL_ENV_RETRY = {"SV_TIMEOUT_MS": "10000"}
 VARIANT_NAME = {"01": "stale-cc-on-retry", "10": "absolute-line-index", "00": "stale-cc+absolute-line-index"}
 
 
@@ -522,9 +522,11 @@ def run(ctx):
     retried = 0
     for c in cases:
         v = impl_log(c, impl)
-        if flaky(v) or v.startswith("run:"):
+        # a hang that a pinned variant of the model predicts (`|stuck`) is not load: no second run
+        predicted = any(model.get(c["id"] + ".m" + x, "").endswith("|stuck") for x in ("01", "10", "00"))
+        if (flaky(v) or v.startswith("run:")) and not predicted:
             retried += 1
-            if retried <= 40:
+            if retried <= 12:
                 i2, _ = diff.run_cases([{"impl": ["R\t%s.R" % c["id"]] + c["impl"]}], impl_env=IMPL_ENV_RETRY, parallel=False)
                 v = impl_log(c, i2)
         c["impl_log"] = v
